@@ -598,7 +598,7 @@ func runRealWS(c RealWSCase) vkit.Result {
 		total += n
 	}
 	var got []byte
-	tr.SetReadDeadline(time.Now().Add(30 * time.Second))
+	tr.SetReadDeadline(time.Now().Add(vkit.WaitCeiling))
 	for i := 0; len(got) < len(want); i++ {
 		buf := make([]byte, c.Reads[i%len(c.Reads)])
 		n, err := tr.Read(buf)
@@ -615,7 +615,7 @@ func runRealWS(c RealWSCase) vkit.Result {
 		if _, err := tr.Write(p); err != nil {
 			return vkit.Failf("write: %v", err)
 		}
-		cl.SetReadDeadline(time.Now().Add(30 * time.Second))
+		cl.SetReadDeadline(time.Now().Add(vkit.WaitCeiling))
 		typ, data, err := cl.ReadMessage()
 		if err != nil || typ != gws.BinaryMessage || !bytes.Equal(data, p) {
 			return vkit.Failf("client received message type %d with %d bytes (err %v) for a %d-byte write", typ, len(data), err, n)
